@@ -56,25 +56,32 @@ def check_metrics(prog, rep):
             d = f.defaults().get('radius')
             rep.add('V2', f, entry, 'radius default %s' % (norm(d) if d is not None else None), f.node.lineno,
                     d is not None and const(d) == 6378137, 'the sphere radius defaults to 6378137 m')
-            # range guards
-            want_g = {}
+            # range guards, evaluated: with the other three coordinates at 0, a call is rejected exactly when the
+            # coordinate lies outside its range
+            from fractions import Fraction as Fr
+            from ..kutil import CannotEvaluate, eval_cond_full
+            from ..sym import Sym
             for p, lim in (('x1', 180), ('x2', 180), ('y1', 90), ('y2', 90)):
-                want_g[p] = {cond_key(cmp_cond('>', P[p], Rat.const(lim))), cond_key(cmp_cond('<', P[p], Rat.const(-lim)))}
-            found = {}
-            for gs, node in k.raises:
-                last = gs[-1] if gs else None
-                if last is not None and last[0] == 'or':
-                    keys = {cond_key(x) for x in last[1:]}
-                    for p, w in want_g.items():
-                        if keys == w:
-                            found[p] = node
-            for p in want_g:
-                rep.add('V2', f, entry, 'range guard for %s' % p, found[p].lineno if p in found else f.node.lineno, p in found,
+                ok, why = None, ''
+                if p in f.params:
+                    try:
+                        res = []
+                        for v in (lim + 1, -lim - 1, lim, -lim, 0, Fr(2 * lim + 1, 2), -Fr(2 * lim + 1, 2)):
+                            env = {Sym(q): Fr(0) for q in f.params[:4]}
+                            env[Sym(p)] = Fr(v)
+                            raised = any(all(eval_cond_full(g, env) for g in gs) for gs, node in k.raises)
+                            returned = any(all(eval_cond_full(g, env) for g in gs) for val_, gs in k.returns)
+                            res.append((v, raised and not returned, abs(v) > lim))
+                        bad = [(str(v), r) for v, r, w in res if r != w]
+                        ok = not bad
+                        why = 'rejected for %s' % [str(v) for v, r, w in res if r] + ('; wrong for %s' % bad if bad else '')
+                    except CannotEvaluate as e:
+                        why = str(e)
+                rep.add('V2', f, entry, 'range guard for %s' % p, f.node.lineno, ok,
                         'longitudes outside [-180, 180] and latitudes outside [-90, 90] must be rejected '
-                        '(%s: raise iff %s > %d or %s < -%d)' % (p, p, 180 if p[0] == 'x' else 90, p, 180 if p[0] == 'x' else 90))
-            # the value is returned only when no guard fired
-            rep.add('V2', f, entry, 'result returned under all four range conditions', f.node.lineno,
-                    len(k.returns) == 1 and len(k.returns[0][1]) >= 4, 'no return path bypasses the range checks')
+                        '(%s: raise iff |%s| > %d); %s' % (p, p, lim, why))
+            rep.add('V2', f, entry, 'one result expression', f.node.lineno, len(k.returns) == 1,
+                    'the distance is one formula (checked by V1): a second return path would bypass it')
     # dispatch
     d = m.funcs.get('_distance')
     if d is None:
@@ -86,40 +93,39 @@ def check_metrics(prog, rep):
     rep.add('V3', m, entry, 'metric constants %s' % consts, 1, len(set(consts.values())) == 3 and None not in consts.values(),
             'the three metric constants must be distinct')
     want_map = {'EUCLIDEAN': 'euclidean_distance', 'GREAT_CIRCLE': 'great_circle_distance', 'MANHATTAN': 'manhattan_distance'}
-    got_map = {}
-    node = [n for n in d.node.body if isinstance(n, ast.If)]
-    cur = node[0] if node else None
-    seen_consts = set()
-    while cur is not None:
-        t = norm(cur.test).replace(' ', '')
-        for cn in want_map:
-            if t in ('metric==%s' % cn, '%s==metric' % cn):
-                for c in calls(ast.Module(body=cur.body, type_ignores=[])):
-                    got_map[cn] = (norm(c.func), [norm(a) for a in c.args])
-                seen_consts.add(cn)
-        if len(cur.orelse) == 1 and isinstance(cur.orelse[0], ast.If):
-            cur = cur.orelse[0]
-        else:
-            rest = set(want_map) - seen_consts
-            if len(rest) == 1:
-                for c in calls(ast.Module(body=cur.orelse, type_ignores=[])):
-                    got_map[rest.pop()] = (norm(c.func), [norm(a) for a in c.args])
-            cur = None
+    # which metric function runs for which constant: the calls recorded by the interpreter, their guards evaluated per constant
+    from fractions import Fraction as Fr
+    from ..kutil import CannotEvaluate, eval_cond_full
+    from ..sym import Sym
+    kd = interpret(prog, d, strict=False, inline_depth=0)
+    mparam = d.params[4] if len(d.params) > 4 else None
     for cn, fn in want_map.items():
-        g = got_map.get(cn)
-        ok = g is not None and g[0] == fn and g[1] == ['x1', 'x2', 'y1', 'y2']
-        rep.add('V3', d, entry, '%s -> %s' % (cn, g), d.node.lineno, ok,
+        ok, got = None, None
+        if consts.get(cn) is not None and mparam is not None:
+            try:
+                act = []
+                for rec in kd.calls:
+                    if all(eval_cond_full(g, {Sym(mparam): Fr(consts[cn])}) for g in rec[2]) and not any(rec[3] is r_[3] for r_ in act):
+                        act.append(rec)
+                got = [(r_[0].split('.')[-1], [a[1] if isinstance(a, tuple) and a and a[0] == 'param' else str(a) for a in r_[1]]) for r_ in act]
+                ok = len(act) == 1 and got[0][0] == fn and got[0][1] == d.params[:4]
+            except CannotEvaluate as e:
+                got = str(e)
+        rep.add('V3', d, entry, '%s -> %s' % (cn, got), d.node.lineno, ok,
                 'metric constant %s must be routed to %s(x1, x2, y1, y2)' % (cn, fn))
-    # string -> constant mapping
-    mp = m.funcs.get('_distance_metric_mapping')
-    if mp is not None:
-        pairs = {}
-        for s in mp.own_nodes():
-            if isinstance(s, ast.Assign) and isinstance(s.targets[0], ast.Subscript):
-                pairs[const(s.targets[0].slice)] = norm(s.value)
-        rep.add('V3', mp, entry, 'DISTANCE_METRICS %s' % sorted(pairs.items()), mp.node.lineno,
-                pairs == {'EUCLIDEAN': 'EUCLIDEAN', 'GREAT_CIRCLE': 'GREAT_CIRCLE', 'MANHATTAN': 'MANHATTAN'},
-                'each metric name must map to its own constant')
+    # string -> constant mapping: the module-level table, whatever builds it (consteval.py)
+    from ..consteval import CannotFold, fold_expr
+    tv = m.assigns.get('DISTANCE_METRICS', [])
+    if len(tv) == 1:
+        try:
+            table = fold_expr(prog, m, tv[0])
+            ok = isinstance(table, dict) and table == {n_: consts[n_] for n_ in want_map}
+            shown = sorted(table.items()) if isinstance(table, dict) else table
+        except CannotFold as e:
+            ok, shown = None, 'not a constant table: %s' % e
+        rep.add('V3', m, entry, 'DISTANCE_METRICS %s' % (shown,), tv[0].lineno, ok, 'each metric name must map to its own constant')
+    else:
+        rep.add('V3', m, entry, 'DISTANCE_METRICS', 1, None, 'module-level table not found')
 
 
 def check_units(prog, rep):
